@@ -29,7 +29,7 @@ namespace Coap.Spec.Uri
 open Coap
 
 /-- RFC 3986 HEXDIG, case-insensitive -/
-def hexVal (c : UInt8) : Option Nat :=
+def hexDigitVal (c : UInt8) : Option Nat :=
   if 48 ≤ c.toNat ∧ c.toNat ≤ 57 then some (c.toNat - 48)
   else if 65 ≤ c.toNat ∧ c.toNat ≤ 70 then some (c.toNat - 55)
   else if 97 ≤ c.toNat ∧ c.toNat ≤ 102 then some (c.toNat - 87)
@@ -42,7 +42,7 @@ def pctDecode : Bytes → Option Bytes
     if c = 0x25 then
       match r with
       | a :: b :: r' =>
-        match hexVal a, hexVal b, pctDecode r' with
+        match hexDigitVal a, hexDigitVal b, pctDecode r' with
         | some x, some y, some t => some (UInt8.ofNat (x * 16 + y) :: t)
         | _, _, _ => none
       | _ => none
